@@ -249,7 +249,7 @@ def check_extractors(chk, tmp):
     """The extractors: constructing the view reads nothing; k rows cost a number of BYTES that does not depend on the
     length of the file (same count for a 300-row and a 30000-row file) and stays within a few buffers."""
     import petl as etl
-    sizes = (3000, 60000)
+    sizes = (30000, 120000)     # both files far beyond the few buffers (4 x 64 KiB) an extractor may read ahead
     files = {}
     for n in sizes:
         t = [['f', 'g', 'h']] + [[i, u'v%d' % i, u'text %d' % (i * 7)] for i in range(n)]
